@@ -185,6 +185,6 @@ pub fn exec_more(t: &[&str]) -> R {
             pipe_seal(n, s, &hx(3)?, &hx(4)?)
         }
         "unseal.val" => unseal_val(Be::parse(t.get(1).ok_or_else(bad)?).ok_or_else(bad)?, t.get(2).ok_or_else(bad)?, t.get(3).ok_or_else(bad)?),
-        _ => Err(bad()),
+        _ => crate::exec4::exec_more(t),
     }
 }
